@@ -113,6 +113,25 @@ def _only_lets(t, all_sites, inside):
     return len(inside) >= 1 and len(all_sites) % len(inside) == 0
 
 
+def check_step_is_bounded(ctx, lib, rule):
+    """One engine step does a bounded amount of work: Engine::step contains no loop, and resumes a
+    suspension with `start*`, never by stepping the result again (a step that runs a branch to
+    maturity starves its siblings when that branch diverges)."""
+    fn = streams.getfn(ctx, lib, rule, "<crate::stream::StreamEngine as crate::engine::Engine>::step")
+    if not fn:
+        return
+    t = sym.Evaluator(lib, inline=lambda p, f: False).fn_term(fn)
+    loops = [s for s in sym.subterms(t) if s[0] in ("loop", "while", "for")]
+    ctx.expect(not loops, rule, fn["npath"] + "|no-loop", site_of(fn), "Engine::step must not loop: each call matures at most one suspension (found %d loop(s))" % len(loops))
+    eff, m = tables.flatten(t)
+    if m and m[0] == "match":
+        for p, g, b in m[2]:
+            cs = tables.pat_ctors(p)
+            if any("Pause" in c or "Delay" in c for c in cs):
+                steps = [c for c in sym.calls(b, "step")]
+                ctx.expect(not steps, rule, fn["npath"] + "|resume-without-stepping|" + "/".join(c.split("::")[-1] for c in cs), site_of(fn), "resuming a suspension must not step the resumed stream in the same call")
+
+
 def run(ctx, fb, cfg):
     lib = fb.lib
     R = "C07."
@@ -123,5 +142,6 @@ def run(ctx, fb, cfg):
         check_new_never_identity(ctx, lib, R + "K3.clause-behind-pause", f)
     check_anyo(ctx, lib, R + "K3.anyo")
     # engine resumes: Pause -> start, Delay -> the stream itself
-    streams.check_engine_step(ctx, lib, R + "K5.engine-step", [BFS])
+    streams.check_engine_step(ctx, lib, R + "K5.engine-step", [BFS, streams.DFS] if hasattr(streams, "DFS") else [BFS])
+    check_step_is_bounded(ctx, lib, R + "K6.step-is-one-step")
     streams.check_engine_delay_iter(ctx, lib, R + "K3.engine-delay")
